@@ -113,6 +113,29 @@ theorem late_attach_after_consumed_is_dropped (s : St) (ctx : Nat) (body : List 
     (stepCore s (.thenOp ctx body)).2 = [] := by
   simp [stepCore, hrefs, hf, hk, hr]
 
+/-- **Nothing is retained by a late `then`.**  On a finished task that holds no continuation, a `then` —
+whether it runs its continuation or (value already handed out) drops it — leaves no continuation stored in
+the shared record: the closure is released when `then` returns.  (A `then` registered on a consumed task
+would otherwise stay in the record with nothing left to invoke or clear it; if it captured a handle of the
+task, record and closure would keep each other alive for ever.) -/
+theorem late_then_retains_nothing (s : St) (ctx : Nat) (body : List Inner)
+    (hf : s.finished = true) (hc : s.cont = none) :
+    (stepCore s (.thenOp ctx body)).1.cont = none := by
+  simp only [stepCore]
+  split
+  · exact hc
+  · simp only [hf]
+    split
+    · cases h : (runInner _ body).1.cont with
+      | none => rfl
+      | some c => have := (runInner_frame body _).cont_sub c h; simp [hc] at this
+    · split
+      · show (runInner _ body).1.cont = none
+        cases h : (runInner _ body).1.cont with
+        | none => rfl
+        | some c => have := (runInner_frame body _).cont_sub c h; simp [hc] at this
+      · exact hc
+
 /-- **Release.** In every reachable state with no handle left, the shared record holds neither a
 value nor a continuation (`shared_ptr` destruction frees both). -/
 theorem released_when_unreferenced (kind : Kind) (ops : List Op) :
